@@ -3,6 +3,7 @@ use crate::engine::Driver;
 
 pub mod c01;
 pub mod c03;
+pub mod c23;
 // pub mod c24_table;
 pub mod common;
 pub mod edit;
@@ -10,7 +11,7 @@ pub mod edits;
 pub mod small;
 
 pub fn all_ids() -> Vec<&'static str> {
-    vec!["C01", "C02", "C03", "C06", "C07", "C08", "C09", "C10", "C11", "C12", "C13", "C14", "C28", "C29", "C30"]
+    vec!["C01", "C02", "C03", "C06", "C07", "C08", "C09", "C10", "C11", "C12", "C13", "C14", "C23", "C28", "C29", "C30"]
 }
 
 pub fn get(id: &str) -> Option<Box<dyn Driver>> {
@@ -27,6 +28,7 @@ pub fn get(id: &str) -> Option<Box<dyn Driver>> {
         "C12" => Box::new(small::BuiltFunctions),
         "C13" => Box::new(small::AddedTypes),
         "C14" => Box::new(small::AddedLocals),
+        "C23" => Box::new(c23::SideEffects),
         "C28" => Box::new(small::CustomSections),
         "C29" => Box::new(edits::c29()),
         "C30" => Box::new(edits::c30()),
